@@ -6,7 +6,7 @@ import json, os, re, shutil, subprocess, sys, time
 V = "/verif"
 pid, k = sys.argv[1], sys.argv[2]
 checks = sys.argv[3:] or [pid]
-O = "/tmp/seed/out-%s" % pid
+O = os.path.join(os.environ.get("SEEDROOT", "/tmp/seed"), "out-%s" % pid)
 D = os.path.join(V, "seeded", "%s-%s" % (pid, k))
 os.makedirs(D, exist_ok=True)
 if os.path.exists(os.path.join(O, "change%s.diff" % k)):
